@@ -577,7 +577,7 @@ def shards(tier, seed):
         out.append(dict(name=name, fn="h_history", kwargs=kw, budget=B if eng == "symex" else 3 * B, per_path=30, engine=eng))
 
     # ---- concrete literals, real dict, direct engine: structure
-    lits_q = [2, 5, 6, 8]  # indices into CONCRETE_LITS: 2, 4/2, 0.5, '2'
+    lits_q = [2, 5, 6, 7, 8]  # indices into CONCRETE_LITS: 2, 4/2, 0.5, 2.0 (an integral float), '2'
     for fam in ("bool", "bool3", "infix-b"):
         add(f"direct-pairs-{fam}", ops=FAMILIES[fam], plan=["free"] * (3 if deep else 2), leaves=["b1", "b2"], engine="direct")
     for fam in ("rel", "arith1", "arith2", "infix-n", "infix-r"):
